@@ -15,7 +15,6 @@ import (
 	"encoding/hex"
 	"fmt"
 	"net"
-	"os"
 	"sort"
 	"strings"
 	"sync"
@@ -355,20 +354,6 @@ func Run(sc *Scenario) *Obs {
 		time.Sleep(10 * time.Millisecond)
 	}
 	stack.Quiesce(func() string { return fmt.Sprint(s.Stats.GetConnectionStats(), s.Stats.GetProxyStats(), s.Stats.GetTranslatorStats()) })
-	if os.Getenv("C19_DEBUG") != "" {
-		t1 := time.Now()
-		for time.Since(t1) < 40*time.Second {
-			sum := int64(0)
-			for _, v := range s.Stats.GetConnectionStats() {
-				sum += v
-			}
-			if sum == 0 {
-				break
-			}
-			time.Sleep(50 * time.Millisecond)
-		}
-		fmt.Fprintln(os.Stderr, "C19_DEBUG extra wait until gauges zero:", time.Since(t1), s.Stats.GetConnectionStats(), s.Stats.GetProxyStats())
-	}
 	type hit struct {
 		seq  int64
 		name string
